@@ -165,18 +165,24 @@ def run(ctx):
 
 
 def alloc_probe(ctx):
-    """Directed observation, NOT part of the verdict: an 18-byte blob that declares one atom of 2^40
-    bytes, decoded with max_atom_len = 2^63. The decoder's buf.resize(length) is bounded by
-    max_atom_len only (C20_alloc_bounded), so the process asks for 1 TiB. Run in its own process under
-    an address-space limit so that the outcome (abort vs. error return) is recorded without risk."""
-    blob = gen_s2026.MAGIC + gen_s2026.wvar(1) + gen_s2026.wvar(2**40) + b"abc" + gen_s2026.wvar(1) + gen_s2026.wvar(2)
-    case = "de 1 %d %s" % (2**63, blob.hex())
-    try:
-        p = subprocess.run(["sh", "-c", "ulimit -v 4000000; exec %s s2026" % vlib.harness_bin()],
-                           input=case + "\n", capture_output=True, text=True, timeout=120)
-        obs = {"case": case, "exit_status": p.returncode, "stdout": p.stdout.strip()[:200], "stderr": p.stderr.strip()[-200:]}
-    except Exception as e:  # noqa
-        obs = {"case": case, "error": repr(e)}
-    ctx.extra_cov["alloc_probe_max_atom_len_2^63"] = obs
-    ctx.notes.append("directed probe outside the verdict: declared atom length 2^40 with max_atom_len 2^63 under ulimit -v 4 GB -> exit status %s (%s)"
-                     % (obs.get("exit_status"), (obs.get("stdout") or obs.get("stderr") or "")[:120]))
+    """Directed cases, part of the verdict: blobs of a few bytes that declare one atom of 2^32 .. 2^55
+    bytes, decoded with max_atom_len = 2^63. Before the repair recorded as F9 in known_findings.json
+    the decoder resized its buffer to the declared length up front, asked for up to petabytes and
+    the process aborted (SIGABRT, not a catchable panic). Each case runs in its own process under
+    an address-space limit; anything but a normal error return is a violation."""
+    for ln in (2**32, 2**40, 2**47, 2**55 - 1):
+        blob = gen_s2026.MAGIC + gen_s2026.wvar(1) + gen_s2026.wvar(ln) + b"abc" + gen_s2026.wvar(1) + gen_s2026.wvar(2)
+        for strict in (1, 0):
+            case = "de %d %d %s" % (strict, 2**63, blob.hex())
+            ctx.evaluations += 1
+            try:
+                p = subprocess.run(["sh", "-c", "ulimit -v 4000000; exec %s s2026" % vlib.harness_bin()],
+                                   input=case + "\n", capture_output=True, text=True, timeout=120)
+                obs = {"case": case, "exit_status": p.returncode, "stdout": p.stdout.strip()[:200], "stderr": p.stderr.strip()[-200:]}
+            except Exception as e:  # noqa
+                obs = {"case": case, "error": repr(e)}
+            ctx.extra_cov.setdefault("alloc_probes_max_atom_len_2^63", []).append(obs)
+            if obs.get("exit_status") != 0 or not obs.get("stdout", "").startswith("err"):
+                ctx.violation("the 2026 decoder does not return normally on a short blob that declares a huge atom "
+                              "(max_atom_len 2^63): exit status %s, output %r" % (obs.get("exit_status"), obs.get("stdout") or obs.get("stderr")),
+                              {"case": case, "family": "s2026", "impl": "exit=%s %s" % (obs.get("exit_status"), obs.get("stdout", ""))})
